@@ -14,7 +14,7 @@ use ckb_network::{
     async_trait, bytes::Bytes, CKBProtocolContext, CKBProtocolHandler, PeerIndex, SupportProtocols,
 };
 use ckb_types::{
-    core::{BlockNumber, EpochNumber, HeaderView},
+    core::{BlockNumber, EpochNumber, EpochNumberWithFraction, HeaderView},
     packed,
     prelude::*,
     utilities::merkle_mountain_range::VerifiableHeader,
@@ -269,6 +269,40 @@ impl LightClientProtocol {
                 );
                 return Err(StatusCode::InvalidChainRoot.with_context(errmsg));
             }
+        }
+        Ok(())
+    }
+
+    /// The parent chain root of a block commits the total difficulty of its parent block: for
+    /// continuous headers it has to be the total difficulty which the parent claims by itself.
+    pub(crate) fn check_total_difficulty_for_continuous_headers<
+        'a,
+        T: Iterator<Item = &'a VerifiableHeader>,
+    >(
+        &self,
+        headers: T,
+    ) -> Result<(), Status> {
+        let mmr_activated_epoch = EpochNumberWithFraction::new(self.mmr_activated_epoch(), 0, 1);
+        let mut parent_opt: Option<&VerifiableHeader> = None;
+        for header in headers {
+            // the total difficulty of the parent is only known when it commits a chain root
+            if let Some(parent) =
+                parent_opt.filter(|parent| parent.header().epoch() > mmr_activated_epoch)
+            {
+                let parent_total_difficulty: U256 =
+                    header.parent_chain_root().total_difficulty().unpack();
+                if parent.checked_total_difficulty().as_ref() != Some(&parent_total_difficulty) {
+                    let errmsg = format!(
+                        "failed to verify total difficulty for block#{}, hash: {:#x}: \
+                        its chain root commits the total difficulty {:#x} for the parent block",
+                        header.header().number(),
+                        header.header().hash(),
+                        parent_total_difficulty
+                    );
+                    return Err(StatusCode::InvalidTotalDifficulty.with_context(errmsg));
+                }
+            }
+            parent_opt = Some(header);
         }
         Ok(())
     }
